@@ -135,6 +135,20 @@ def term_depth(t, limit=60):
 
 def proj(t, name):
     k = t[0]
+    if isinstance(name, tuple):
+        # a by-value capture inside a closure object: ('upvar', idx, name)
+        if k == 'closure' and name[0] == 'upvar' and name[1] < len(t[2]):
+            return t[2][name[1]]
+        if k == 'obj':
+            for f, x in t[2]:
+                if f == name:
+                    return x
+            return proj(t[1], name)
+        if k == 'phi':
+            return mk_phi([proj(a, name) for a in t[1]])
+        if k in ('lv',):
+            return proj(t[3], name)
+        return TOP
     if k == 'agg':
         _, path, variant, fields = t
         fname = name
@@ -305,10 +319,16 @@ class Interp:
                         cands = [strip_lv(a) for a in envv[1] if strip_lv(a)[0] == 'closure']
                         if cands and all(c[1] == cands[0][1] for c in cands):
                             envv = cands[0]
+                    if envv[0] == 'obj' and strip_lv(envv[1])[0] == 'closure':
+                        envv = strip_lv(envv[1])   # the closure object after one of its by-value captures was updated
                     if envv[0] == 'closure' and e['idx'] < len(envv[2]):
                         locs = self._closure_locs.get((envv[1], envv[2])) or self._closure_locs.get(envv[1])
                         if locs and locs[e['idx']] is not None:
                             root, path = ('R', locs[e['idx']]), ()
+                        elif root[0] in ('L', 'P'):
+                            # captured by value: the capture lives inside the closure object held at this location, and
+                            # the closure body may mutate it there (`move` closures that update and return what they own)
+                            path = path + (n,)
                         else:
                             root, path = ('V', envv[2][e['idx']]), ()
                     else:
